@@ -41,7 +41,7 @@ Theorem C17_merge_explicit_error : forall g bases d1 d2 r, prepared_b bases = fa
 Proof. exact merge_or_error. Qed.
 Print Assumptions C17_merge_explicit_error.
 
-(* FULL STATEMENT (false of the faithful model, see C17_crash_refuted and C17_late_mark_refuted):
+(* FULL STATEMENT (false of the faithful model, see C17_late_mark_refuted):
      whenever a definition of the body carries the extend_super mark, the class statement succeeds and the resulting
      function's table is the bases' inherited tables for that name, in base order, overlaid by the body's definitions.
    PROVED on the decidable domain [extend_dom] (the mark is on the FIRST definition of the name, and only there) with
@@ -74,11 +74,24 @@ Theorem C17_no_leak_plain : forall g body g' a, Inv g -> pd_name g body = COk g'
 Proof. exact no_leak_plain. Qed.
 Print Assumptions C17_no_leak_plain.
 
-(* KF-41: [def f ...] followed by [@extend_super def f ...]: the class statement dies with AttributeError *)
-Theorem C17_crash_refuted :
-  exists bases body, cls_kf41 ANone body = true /\ cd_name [] bases body = CFail EName.
-Proof. exists [], [mkDef DPlain 0 1; mkDef DExt 1 2]. vm_compute. split; reflexivity. Qed.
-Print Assumptions C17_crash_refuted.
+(* KF-41 (fixed ef3dd84): [def f ...] followed by [@extend_super def f ...] used to die with AttributeError.
+   Now, for every graph and every bases: the class statement succeeds and yields one new function holding both
+   definitions -- the plain one as own method, the marked one as a mixin (so the plain one wins on an identical signature).
+   (The bases' methods are still not collected in this situation: that is the open KF-42, below.) *)
+Theorem C17_plain_then_mark : forall g bases d1 d2, Inv g -> prepared_b bases = false ->
+  d_kind d1 = DPlain -> d_kind d2 = DExt ->
+  exists g' p t, cd_name g bases [d1; d2] = COk g' (AOvld p false) /\ length g <= p /\ obs g' p = Some t /\
+    forall k, t_get k t = overlay_get k [[((d_sig d2, 0%Z), d_label d2)]] [((d_sig d1, 0%Z), d_label d1)].
+Proof. exact plain_then_mark. Qed.
+Print Assumptions C17_plain_then_mark.
+
+(* the old witness of KF-41 *)
+Example C17_kf41_repaired :
+  match cd_name [] [] [mkDef DPlain 0 1; mkDef DExt 1 2] with
+  | COk g' (AOvld p false) => obs g' p = Some [((1, 0%Z), 2); ((0, 0%Z), 1)]
+  | _ => False
+  end.
+Proof. vm_compute. reflexivity. Qed.
 
 (* KF-42: the mark on a later definition is ignored: base function 0 has a method for signature 0, the subclass body is
    [@ovld def (sig 2); @extend_super def (sig 3)], and the resulting function has no method for signature 0 *)
